@@ -116,3 +116,27 @@ func buildStore(recs [][]byte) ([]tlog.Hash, error) {
 	}
 	return st, nil
 }
+
+// zeroCopyReader serves consecutive index runs as a sub-slice of the store itself (a legitimate
+// zero-copy HashReader): the library must treat what ReadHashes returns as read-only.
+func zeroCopyReader(st *[]tlog.Hash) tlog.HashReader {
+	return tlog.HashReaderFunc(func(ix []int64) ([]tlog.Hash, error) {
+		consecutive := len(ix) > 0
+		for i := 1; i < len(ix); i++ {
+			if ix[i] != ix[i-1]+1 {
+				consecutive = false
+			}
+		}
+		if consecutive && ix[0] >= 0 && int(ix[len(ix)-1]) < len(*st) {
+			return (*st)[ix[0] : ix[len(ix)-1]+1], nil
+		}
+		out := make([]tlog.Hash, len(ix))
+		for i, x := range ix {
+			if x < 0 || int(x) >= len(*st) {
+				return nil, fmt.Errorf("index %d out of store", x)
+			}
+			out[i] = (*st)[x]
+		}
+		return out, nil
+	})
+}
